@@ -1088,6 +1088,8 @@ def klass(n, ver='2.0', full=False):
         return f'arrow:{n[2][0]}'
     if h in ('fref', 'inline', 'map', 'sqarr', 'curlarr', 'ulookup', 'lookup'):
         return 'xp3-expr:' + h if full else 'xp3-expr'      # expression forms new in XPath 3.0 / 3.1
+    if h in ('pred', 'dyncall') and not full and klass(n[1], ver) == 'xp3-expr':
+        return 'xp3-expr'                                    # ... with predicates / argument lists
     return h
 
 
